@@ -89,6 +89,12 @@ impl RedirectionLoop {
             for header in headers.iter() {
                 if header.name.to_lowercase() == "location" {
                     current_url = join_url(current_url.as_str(), header.value.as_str());
+
+                    // A client keeps the fragment for itself, it does not send it with the next request
+                    if let Some(position) = current_url.find('#') {
+                        current_url.truncate(position);
+                    }
+
                     found = true;
                     break;
                 }
